@@ -21,6 +21,7 @@ mod extract;
 mod laws;
 mod total;
 mod exprtrace;
+mod cli;
 
 use std::process::exit;
 
@@ -52,6 +53,7 @@ fn main() {
                     "lexical" => lexical::replay(cases),
                     "parsetotal" => parsetotal::replay(cases),
                     "extract" => extract::replay(cases),
+                    "cli" => cli::replay(cases),
                     m => { eprintln!("unknown module {}", m); exit(2) }
                 }
             };
